@@ -492,6 +492,48 @@ def run_imports(c, backed):
     return _observe(lambda: lk.get_template("/m.html").render(**kw))
 
 
+VALS = {"truthy": None, "False": "False", "zero": "0", "empty": "''", "list": "[]", "None": "None"}
+
+
+def _vt(v):
+    """value -> the label Namespaces.tla uses for it"""
+    if v is False:
+        return "False"
+    if v is None:
+        return "None"
+    if isinstance(v, int) and v == 0:
+        return "zero"
+    if isinstance(v, str) and v == "":
+        return "empty"
+    if isinstance(v, list) and v == []:
+        return "list"
+    return str(v)
+
+
+def run_incval(c, backed):
+    """Explicit / context values of every truthiness for the <%page> arguments of an included template (and, for
+    comparison, the arguments of a def called through a namespace)."""
+    def lit(side, cls):
+        return repr(side) if cls == "truthy" else VALS[cls]
+    given = ", ".join("%s=%s" % (z, lit("E", c["e" + z])) for z in "ab" if c["e" + z] != "absent")
+    show = "{open|T}{arg|a|${vt(a)}}{arg|b|${vt(b)}}{close|T}"
+    t = {"/t.html": "<%page args=\"a='default', b='default'\"/>\n" + show + "\n",
+         "/t2.html": "<%def name=\"show(a='default', b='default')\">" + show + "</%def>\n"}
+    if c["via"] == "tag":
+        m = '<%%include file="/t.html"%s/>\n' % (' args="%s"' % given if given else "")
+    elif c["via"] == "call":
+        m = '<%% local.include_file("/t.html"%s) %%>\n' % (", " + given if given else "")
+    else:
+        m = '<%%namespace name="ns" file="/t2.html"/>\n${ns.show(%s)}\n' % given
+    t["/m.html"] = m
+    kw = {"vt": _vt}
+    for z in "ab":
+        if c["c" + z] != "absent":
+            kw[z] = eval(lit("C", c["c" + z]))
+    lk = _lookup_with(t, backed, "incval")
+    return _observe(lambda: lk.get_template("/m.html").render(**kw))
+
+
 def run_incpos(c, backed):
     """The <%include> at different places of the includer; values for T's page args a, b from different sources."""
     sa, sb = set(c["sa"]), set(c["sb"])
@@ -549,6 +591,8 @@ def _run_batch(args):
                 obs = run_multins(c, backed)
             elif c["fam"] == "incpos":
                 obs = run_incpos(c, backed)
+            elif c["fam"] == "incval":
+                obs = run_incval(c, backed)
             elif c["fam"] == "imports":
                 obs = run_imports(c, backed)
             else:
@@ -644,7 +688,7 @@ def check(run):
     if res.violated:
         run.spec_violation(res)
         return {"rule": "TLC found the design model violating %s" % res.violated, "exhaustive": True}
-    for a in ("Resolve", "PopulateImports", "Calls", "GenNamespaces", "Bodies", "Include", "IncludeAt", "PopulateTag", "TagCalls", "ReadOthers", "MakeNamespace", "Probe", "Finish"):
+    for a in ("Resolve", "PopulateImports", "Calls", "GenNamespaces", "Bodies", "Include", "IncludeAt", "IncludeValues", "PopulateTag", "TagCalls", "ReadOthers", "MakeNamespace", "Probe", "Finish"):
         if not res.coverage.get(a, [0, 0])[1]:
             raise MachineryError("vacuous model checking: action %s never taken (%s)" % (a, res.coverage))
     run.extra["action_coverage"] = {a: v[1] for a, v in res.coverage.items() if a[0].isupper()}
